@@ -9,6 +9,56 @@ TB = ("Coq 8.16.1 kernel; hand-written Gallina model tied to /repo by the corres
       "OCaml runner/main.ml; Python harness. See DESIGN.md section 7.")
 
 CLAIMED = {
+ "C03": dict(
+   text="17 theorems about a Gallina model of __eq__/__hash__/__repr__ in the monoidal and rigid classes: equality is "
+        "an equivalence and holds iff dom, cod, boxes, offsets agree; a box equals its wrapping one-box diagram through "
+        "both dispatch paths; equal values print identically, hence hash identically for every hash function of the "
+        "repr; a Gallina recursive-descent parser of the printed constructor syntax round-trips every type, object, box, "
+        "well-typed diagram and sum (repr_roundtrip), hence repr is injective.  Tie to /repo: repr strings compared "
+        "verbatim, ==/hash compared on all pairs within buckets of values built by different routes, oracles for "
+        "equivalence laws, dict lookups and eval(repr(v)) == v.  Known finding F14 (numeric tower).",
+   design="6/C03", engine="coq-repr",
+   technique="Coq proof (printer/parser round trip, structural equality) + verbatim repr correspondence + eval oracle"),
+ "C05": dict(
+   text="9 theorems: interchange keeps the boundary and well-typedness; exact description of an adjacent exchange "
+        "(boxes trade places, exactly one offset changes by the other box's arity difference); a move of box i past "
+        "n boxes puts it n places later with all other boxes in order; the result has the same denotation in EVERY "
+        "strict monoidal category under every type-respecting interpretation (record of axioms, generalised "
+        "interchange law); refusal with InterchangerError iff the boxes overlap where they meet (adjacent) / iff some "
+        "step on the way meets an overlapping box (general); IndexError for out-of-range indices.  Partial: refusal "
+        "characterised through the ORIGINAL diagram's wiring is only stated.  Tie to /repo: every (i, j, left) on "
+        "small-scope and random diagrams against the extracted model, plus wiring / box-order / exact integer tensor "
+        "semantics oracles.",
+   design="6/C05", engine="coq-core",
+   technique="Coq proof (list surgery + abstract monoidal category) + extracted-model correspondence + wiring/semantic oracles"),
+ "C06": dict(
+   text="9 theorems: every step yielded by normalize is well-typed, is a legal single interchange of the previous "
+        "diagram (the trace is a path of guarded adjacent exchanges), permutes the boxes and keeps the denotation in "
+        "every strict monoidal category; normal_form is well-typed, normal (no move left), a fixed point for any "
+        "positive fuel, and NotImplementedError only arises from a repeated diagram in the trace.  PARTIAL: canonicity "
+        "and termination on connected diagrams are stated (Definitions) but not proved - no confluence proof of the "
+        "interchanger system; the check stands in with an exhaustive BFS of each connected diagram's interchanger class "
+        "on the implementation (a test).",
+   design="6/C06", engine="coq-core",
+   technique="Coq proof (path invariants, partial) + trace correspondence + exhaustive interchanger-class search"),
+ "C19": dict(
+   text="11 theorems about a Gallina model of discopy.cartesian (tuplify/untuplify, Function call/then/tensor/id, "
+        "Box, Diagram call through the functor, Swap/Copy/Discard): calling a diagram = sequentially splicing each "
+        "box's outputs at its offset (for arbitrary box functions, arities 0..n), swap/copy/discard act on their "
+        "inputs as a whole at every width, and the three naturality axioms hold on all inputs.  Tie to /repo: a "
+        "26-function library defined on both sides, exhaustive small diagrams x input tuples, random layered diagrams, "
+        "malformed calls; independent list-splicing oracle.",
+   design="6/C19", engine="coq-cart",
+   technique="Coq proof (fold/splice induction) + extracted-model correspondence + list-splicing oracle"),
+ "C20": dict(
+   text="9 theorems about a Gallina model of drawing.diagram2nx over Q (make_space with both padding rules, add_box): "
+        "node set and count, edges = planar wiring, open wires strictly increasing with gap >= 1 after every prefix and "
+        "in the final positions, wires vertical, edges downward, boxes at distance >= 1 from neighbouring wires, "
+        "totality on well-formed diagrams, nx2diagram reads the offsets back; by a loop invariant and a monotone-"
+        "expansion lemma.  Tie to /repo: exact Fraction comparison of nodes/edges/positions, geometric oracle, "
+        "matplotlib and TikZ smoke test (a test), diagramize round trips.",
+   design="6/C20", engine="coq-draw",
+   technique="Coq proof (loop invariant over Q) + exact layout correspondence + geometric oracle"),
  "C02": dict(
    text="21 theorems: associativity and units of >> and @, a @ b = a @ Id >> Id @ b, dagger involutive / "
         "identity-on-objects / contravariant, d[:i] >> d[i:] = d at every depth, box = one-box diagram, and for "
@@ -77,6 +127,9 @@ man = {
  "engines": [{"name": e, "path": pth, "serves_properties": sorted(k for k, v in CLAIMED.items() if v.get("engine", "coq-core") == e),
               "kind_free_text": txt} for e, pth, txt in [
    ("coq-core", "coq/Core", "Gallina model of the structural core of DisCoPy (types, boxes, diagrams with layers, then/tensor/dagger/slices, interchange, normalize, swaps, permutations, cups/caps, functors, sums) + Coq theorems + extracted OCaml runners (core, sums) for differential testing against /repo"),
+   ("coq-repr", "coq/Repr", "Gallina printer/parser model of repr/eq/hash + Coq theorems + extracted runner"),
+   ("coq-cart", "coq/Cart", "Gallina model of discopy.cartesian + Coq theorems + extracted runner"),
+   ("coq-draw", "coq/Draw", "Gallina model of drawing.diagram2nx over Q + Coq theorems + extracted runner"),
    ("coq-tensor", "coq/Tensor", "Gallina model of numpy primitives and discopy.tensor.Tensor over Gaussian integers + Coq theorems + extracted runner"),
  ]],
  "checks": checks,
